@@ -11,8 +11,9 @@ CONSTANTS
   Maxes = {%(maxes)s}
   Paths = {%(paths)s}
   KindsOf <- %(kinds)s
+  OthersOf <- %(others)s
   KindIndex <- MCKindIndex
-  Sorted = TRUE
+  Sorted = %(sorted)s
   KnownDefects = {%(defects)s}
   Depth = %(depth)d
   Log <- %(log)s
@@ -21,7 +22,7 @@ CHECK_DEADLOCK FALSE
 """
 DEFECT = '"C43-check-then-start"'
 ALLP = '"single", "multi", "resolver"'
-BASE = "TypeOK Inv_C43_FreshBound Inv_C43_Balanced Inv_C43_Quiescent Inv_Counter"
+BASE = "TypeOK Inv_C43_WorkCovered Inv_C43_FreshBound Inv_C43_Balanced Inv_C43_Quiescent Inv_Counter"
 
 
 def run(ctx):
@@ -40,15 +41,18 @@ def run(ctx):
                "throttler admits at rest; no other use of wall-clock time")
 
     def write(name, **kw):
-        d = dict(spec="Spec", threads="1, 2, 3", maxes="1, 2", paths=ALLP, kinds="MCKindsSmall", defects=DEFECT, depth=0,
-                 log="LogLast", rest="VIEW cvars\nINVARIANTS " + BASE)
+        d = dict(spec="Spec", threads="1, 2, 3", maxes="1, 2", paths=ALLP, kinds="MCKindsSmall", others=None, sorted="TRUE",
+                 defects=DEFECT, depth=0, log="LogLast", rest="VIEW cvars\nINVARIANTS " + BASE)
         d.update(kw)
+        if d["others"] is None:
+            d["others"] = d["kinds"]
         open(os.path.join(sd, name), "w").write(CFG % d)
 
     # ---- R1 (protocol as it is): what holds in spite of the race
     write("r1.cfg")
     ctx.tlc(sd, "MC_Throttler", "r1.cfg", timeout=900, coverage=not q)
-    write("r1full.cfg", threads="1, 2", maxes="1" if q else "1, 2", kinds="MCKindsFull")
+    star = dict(others="MCPartners", sorted="FALSE") if q else {}
+    write("r1full.cfg", threads="1, 2", maxes="1" if q else "1, 2", kinds="MCKindsFull", **star)
     ctx.tlc(sd, "MC_Throttler", "r1full.cfg", timeout=900)
     # ---- the property itself on the protocol as it is: TLC must find check/check/start/start
     write("r1race.cfg", threads="1, 2", maxes="1", rest="VIEW cvars\nINVARIANTS Inv_C43_Bound")
@@ -59,12 +63,12 @@ def run(ctx):
     elif rr.ok:
         ctx.broken.append("R1 on the protocol as it is did not find the check-then-start race")
     # ---- intended design (atomic check-and-start): the property holds
-    write("r1atomic.cfg", defects="", rest="VIEW cvars\nINVARIANTS " + BASE + " Inv_C43_Bound")
+    write("r1atomic.cfg", defects="", rest="VIEW cvars\nINVARIANTS " + BASE + " Inv_C43_Bound Inv_C43_WorkBound")
     ctx.tlc(sd, "MC_Throttler", "r1atomic.cfg", timeout=900)
 
     exe = ctx.go_build("vh-throttler")
-    gen = dict(spec="GenSpec", log="LogAppend", depth=14, rest="VIEW cvars\nACTION_CONSTRAINT EmitEdge")
-    jobs = [("gen2.cfg", dict(gen, threads="1, 2", maxes="1", kinds="MCKindsFull"), 10),
+    gen = dict(spec="GenSpec", log="LogAppend", depth=20, rest="VIEW cvars\nACTION_CONSTRAINT EmitEdge")
+    jobs = [("gen2.cfg", dict(gen, threads="1, 2", maxes="1", kinds="MCKindsFull", **star), 10),
             ("gen3.cfg", dict(gen, maxes="1, 2" if not q else "2", paths=ALLP if not q else '"single", "resolver"'), 20)]
     alls, noraces = [], []
     for n, (cfg, kw, every) in enumerate(jobs):
